@@ -12,6 +12,7 @@ import (
 	"fmt"
 	"math"
 	"math/big"
+	"os"
 	"sort"
 	"strings"
 	"time"
@@ -127,6 +128,7 @@ type Obs struct {
 	Runs     []map[string][3]float64 `json:"-"`
 	First    map[string][3]float64   `json:"fair_share"`
 	Differ   bool                    `json:"orders_differ"`
+	MaxDiff  float64                 `json:"max_difference_between_orders"`
 }
 
 // Eval runs one input under several insertion orders and returns the Coq case.
@@ -158,6 +160,9 @@ func Eval(in Input, r *u.Rng) (string, Obs) {
 			for id, v := range run {
 				if v != o.First[id] {
 					o.Differ = true
+					for j := 0; j < 3; j++ {
+						o.MaxDiff = math.Max(o.MaxDiff, math.Abs(v[j]-o.First[id][j]))
+					}
 				}
 			}
 		}
@@ -468,6 +473,9 @@ func corpus() []Input {
 		{Totals: [3]float64{16000, 1 << 30, 8}, Queues: []QueueIn{
 			{UID: "x", Res: [3]ResIn{{Deserved: 4000, Limit: -1, Weight: 1, Request: 12000}, {Deserved: 1 << 28, Limit: -1, Weight: 1, Request: 1 << 30}, {Deserved: 2, Limit: -1, Weight: 1, Request: 6}}},
 			{UID: "y", Res: [3]ResIn{{Deserved: 4000, Limit: -1, Weight: 3, Request: 12000}, {Deserved: 1 << 28, Limit: 1 << 29, Weight: 1, Request: 1 << 30}, {Deserved: 2, Limit: -1, Weight: 3, Request: 6}}}}},
+		// remainders that tie in exact arithmetic (1/3 each) but not in float64: the unit goes to
+		// q0 or q1 depending on the map iteration order (finding; tolerated as near-cliff)
+		gpuOnly(8, 0, gq("q0", 0, 0, -1, 1, 1000, 0), gq("q1", 0, 0, -1, 4, 1000, 0), gq("q2", 0, 0, -1, 1, 1000, 0)),
 		// empty queue set, zero total
 		{Totals: [3]float64{1, 1, 1}},
 		gpuOnly(0, 0, gq("a", 0, 0, -1, 1, 5, 0)),
@@ -546,8 +554,10 @@ func features(in Input, o Obs) []string {
 			add("quota_only")
 		}
 	}
-	if o.Differ {
-		add("orders_differ")
+	if o.Differ && o.MaxDiff < 1e-6 {
+		add("orders_differ_by_float_rounding")
+	} else if o.Differ {
+		add("orders_differ_substantially")
 	}
 	return fs
 }
@@ -578,6 +588,13 @@ func Run(dir string, seed uint64, n int, tier string) error {
 			}
 		}
 		out.Sample(map[string]any{"origin": origin, "input": in, "observed": o})
+		if o.Differ && o.MaxDiff >= 1e-6 && os.Getenv("C09_DEBUG") != "" {
+			b, _ := json.Marshal(in)
+			fmt.Fprintf(os.Stderr, "ORDER-DIFF case %d %s\n", out.Len()-1, b)
+			for _, run := range o.Runs {
+				fmt.Fprintf(os.Stderr, "   %v\n", run)
+			}
+		}
 		return o
 	}
 	for i, in := range corpus() {
